@@ -25,6 +25,10 @@ CLAIMS = {
             'resetState re-assigns with fresh values on all paths; print-started ordering; no global/class-level state; '
             'configuration writers census',
             'sufficient condition, fully static; parser scratch object re-initialised by every parse (C18)'),
+    'C17': ('exhaustive evaluation over the sign/order decisions of every comparison in containsPoint / containsRegion / '
+            'the rectangle constructor: on every abstract path the answer must equal the closed-set specification and every '
+            'obligation must have been decided on the right quantities (polynomial normal forms); class exhaustiveness',
+            'real arithmetic; that corner/extreme-point tests imply containment of the whole inner region (convexity) is not decided'),
     'C18': ('regex automata over a 16-class alphabet (totality, progress, capture-group tiling of the line regex) and '
             'abstract interpretation of GcodeParser.parse / parseLines / fullText / stringify / validate with symbolic match '
             'objects (freshness of every reader attribute, fullText = tiling groups in order, offset chaining, checksum text agreement)',
